@@ -1,7 +1,7 @@
 (* C19 property theorems: statements only, each closed by `exact`, pinned by `Check`, with its assumptions printed.
    Token level, for the fragment of Model_C19.v; lexing (text <-> tokens), ASI and layout are outside (correspondence). *)
 From Coq Require Import List String NArith Bool Arith.
-From C19 Require Import Model_C19 Proofs_Final.
+From C19 Require Import Model_C19 Proofs_Final Deep_Lex_C19 Deep_Text_C19.
 Import ListNotations.
 Local Open Scope string_scope.
 
@@ -60,6 +60,67 @@ Proof. exact parse_shaped_refuted_lemma. Qed.
 Check parse_shaped_refuted : exists ts a,
   parse_tokens ts = Some a /\ shaped_coreb a = true /\ parser_shapedb a = false /\ parse_tokens (print_tokens a) = None.
 Print Assumptions parse_shaped_refuted.
+
+(* ---------------------------------------------------------------- deepening round: from tokens to text *)
+
+(* lexing the rendered text of printable tokens gives the tokens back: no two adjacent printed tokens glue together or
+   split (maximal munch of punctuators, words against words / digits, `1 .x`, `.` before digits, `?` before `.`) *)
+Theorem lex_render : forall ts, Forall printable ts -> lex (render ts) = Some ts.
+Proof. exact lex_render_lemma. Qed.
+Check lex_render : forall ts, Forall printable ts -> lex (render ts) = Some ts.
+Print Assumptions lex_render.
+
+(* the same for ANY layout: arbitrary white space (also none) between tokens, as long as there is some wherever
+   `needs_sep` says two neighbours would glue; boa's printed text is checked to be such a layout on every run *)
+Theorem lex_layout : forall l trail, Forall printable (map snd l) -> good_layout None l = true -> all_ws trail = true ->
+  lex (render_ws l trail) = Some (map snd l).
+Proof. exact lex_layout_lemma. Qed.
+Check lex_layout : forall l trail, Forall printable (map snd l) -> good_layout None l = true -> all_ws trail = true ->
+  lex (render_ws l trail) = Some (map snd l).
+Print Assumptions lex_layout.
+
+(* text level: print to tokens, render to characters, lex, parse: the AST comes back *)
+Theorem parse_print_text : forall ast, parser_shaped ast -> printable_prog ast ->
+  parse_text (render (print_tokens ast)) = Some ast.
+Proof. exact parse_print_text_lemma. Qed.
+Check parse_print_text : forall ast, parser_shaped ast -> printable_prog ast ->
+  parse_text (render (print_tokens ast)) = Some ast.
+Print Assumptions parse_print_text.
+
+Theorem parse_print_layout : forall ast l trail, parser_shaped ast -> printable_prog ast ->
+  map snd l = print_tokens ast -> good_layout None l = true -> all_ws trail = true ->
+  parse_text (render_ws l trail) = Some ast.
+Proof. exact parse_print_layout_lemma. Qed.
+Check parse_print_layout : forall ast l trail, parser_shaped ast -> printable_prog ast ->
+  map snd l = print_tokens ast -> good_layout None l = true -> all_ws trail = true ->
+  parse_text (render_ws l trail) = Some ast.
+Print Assumptions parse_print_layout.
+
+(* the adjacency cases this is about *)
+Theorem needs_sep_cases :
+  needs_sep (TNum 1) (TP PDot) = true /\ needs_sep (TP (POp Sub)) (TP (POp Sub)) = true /\
+  needs_sep (TP (POp Sub)) (TP PDec) = true /\ needs_sep (TP (POp Add)) (TP (POp Add)) = true /\
+  needs_sep (TP (POp Div)) (TP (POp Div)) = true /\ needs_sep (TP (POp Div)) (TP (POp Mul)) = true /\
+  needs_sep (TK KTypeof) (TId "x") = true /\ needs_sep (TK KIn) (TNum 1) = true /\ needs_sep (TId "a") (TK KIn) = true /\
+  needs_sep (TP PDot) (TP PDot) = true /\ needs_sep (TP PQuestion) (TP PDot) = true /\ needs_sep (TP PDot) (TNum 5) = true /\
+  needs_sep (TP (POp Lt)) (TP PNot) = false /\ needs_sep (TId "a") (TP (POp Add)) = false /\ needs_sep (TP PCloseParen) (TId "a") = false.
+Proof. exact needs_sep_cases_lemma. Qed.
+Check needs_sep_cases :
+  needs_sep (TNum 1) (TP PDot) = true /\ needs_sep (TP (POp Sub)) (TP (POp Sub)) = true /\
+  needs_sep (TP (POp Sub)) (TP PDec) = true /\ needs_sep (TP (POp Add)) (TP (POp Add)) = true /\
+  needs_sep (TP (POp Div)) (TP (POp Div)) = true /\ needs_sep (TP (POp Div)) (TP (POp Mul)) = true /\
+  needs_sep (TK KTypeof) (TId "x") = true /\ needs_sep (TK KIn) (TNum 1) = true /\ needs_sep (TId "a") (TK KIn) = true /\
+  needs_sep (TP PDot) (TP PDot) = true /\ needs_sep (TP PQuestion) (TP PDot) = true /\ needs_sep (TP PDot) (TNum 5) = true /\
+  needs_sep (TP (POp Lt)) (TP PNot) = false /\ needs_sep (TId "a") (TP (POp Add)) = false /\ needs_sep (TP PCloseParen) (TId "a") = false.
+Print Assumptions needs_sep_cases.
+
+Example printable_example :
+  printable_prog [SExpr (EBin Sub (EId "a") (EUnary UMinus (EId "b"))); SExpr (EMember (ENum 1) "x")].
+Proof. apply printable_progb_sound. reflexivity. Qed.
+Example text_example :
+  string_of_list_ascii (render (print_tokens [SExpr (EBin Sub (EId "a") (EUnary UMinus (EId "b"))); SExpr (EMember (ENum 1) "x")]))
+  = "a- -b;1 .x;".
+Proof. reflexivity. Qed.
 
 (* the hypotheses are satisfiable and the statements are not vacuous *)
 Example shaped_example :
